@@ -383,7 +383,30 @@ func C05(c *vf.Ctx) {
 		kinds:   []string{"start", "hstep", "relw", "deliver"},
 		weights: map[string]int{"invoke": 2, "newstream": 3, "op": 7, "hstep": 6, "relw": 8, "deliver": 8},
 		tail: func(w *sys.World, rng *rand.Rand, ts *tailState) {
+			// "failing the k-th transport read or write": the fault is attached to a transport call that is pending
+			// (the reader's Read, or a parked Write); an endpoint with no transport call in flight cannot observe it
+			o := w.Last()
+			pending := func(e string) bool {
+				if o.Lib["rd_"+e] == "tr" || o.Lib["ms_"+e] == "tw" {
+					return true
+				}
+				if e == "srv" {
+					return o.App["sv"] == "tw"
+				}
+				for _, t := range w.Cfg.Threads {
+					if o.App[t] == "tw" {
+						return true
+					}
+				}
+				return false
+			}
 			e := []string{"cli", "srv"}[rng.Intn(2)]
+			if !pending(e) {
+				e = map[string]string{"cli": "srv", "srv": "cli"}[e]
+			}
+			if !pending(e) {
+				return
+			}
 			ts.mark(w, "before")
 			if !w.Step(sys.Stim{K: "fault", E: e}) {
 				return
@@ -429,12 +452,19 @@ func C05(c *vf.Ctx) {
 			}
 			if st, ok := ts.Marks["settled"]; ok {
 				so := v.r.Lines[st]
+				// the failure has reached an endpoint once its reader has returned from the failing / ended Read
+				reached := map[string]bool{"cli": so.Obs.Lib["rd_cli"] == "done", "srv": so.Obs.Lib["rd_srv"] == "done"}
+				reached[e] = true
 				for _, t := range append(append([]string{}, v.r.Cfg.Threads...), "sv") {
-					if parkedInDrpc(so.Obs.App[t]) {
-						out = append(out, finding{"C05", fmt.Sprintf("call still blocked after the failure reached both sides [%s]", whereSig(so.Where)), st, map[string]any{"thread": t, "where": so.Where}})
+					ep := "cli"
+					if t == "sv" {
+						ep = "srv"
+					}
+					if parkedInDrpc(so.Obs.App[t]) && reached[ep] {
+						out = append(out, finding{"C05", fmt.Sprintf("call still blocked after the failure reached its endpoint [%s]", whereSig(so.Where)), st, map[string]any{"thread": t, "where": so.Where}})
 					}
 				}
-				if !so.Obs.Closed {
+				if !so.Obs.Closed && (e == "cli" || so.Obs.Lib["rd_cli"] == "tr" || so.Obs.Lib["rd_cli"] == "done") {
 					out = append(out, finding{"C05", "client connection not closed after the failure reached both sides", st, nil})
 				}
 			}
@@ -611,7 +641,7 @@ func C07(c *vf.Ctx) {
 			{Small: true, Soft: false, Threads: thr3},
 			{Small: true, Soft: true, Points: []string{"manager.newstream.beforeset", "conn.created"}, Threads: thr3},
 		},
-		kinds:   []string{"start", "hstep", "relw", "deliver", "cancel", "point"},
+		kinds:   []string{"start", "hstep", "relw", "relwerr", "deliver", "cancel", "point"},
 		weights: map[string]int{"invoke": 3, "newstream": 3, "op": 10, "hstep": 5, "relw": 8, "deliver": 6, "cancel": 3, "point": 3, "relwerr": 1},
 		tail: func(w *sys.World, rng *rand.Rand, ts *tailState) {
 			for _, t := range w.Cfg.Threads {
